@@ -604,7 +604,9 @@ func cdxInputs(c *engine.Ctx) {
 		for meta := 0; meta < 3; meta++ {
 			for _, ver := range vers {
 				meta, ver := meta, ver
-				c.Case(func() any { return map[string]any{"version": ver, "metadata-component": []string{"absent", "ref a", "no ref"}[meta], "components": comps} }, func(t *engine.T) *engine.Violation {
+				c.Case(func() any {
+					return map[string]any{"version": ver, "metadata-component": []string{"absent", "ref a", "no ref"}[meta], "components": comps}
+				}, func(t *engine.T) *engine.Violation {
 					root, ids := cdxDoc(ver, meta, comps)
 					ls := layoutsOf(root, []string{"components", "[0]"}, c.Thorough())
 					f := map[string]formats.Format{"1.3": formats.CDX13JSON, "1.4": formats.CDX14JSON, "1.5": formats.CDX15JSON}[ver]
@@ -767,7 +769,9 @@ func spdxInputs(c *engine.Ctx) {
 						continue
 					}
 					el, rl, desc, hf := el, rl, desc, hf
-					c.Case(func() any { return map[string]any{"elements": el, "relationships": rl, "documentDescribes": desc, "hasFiles": hf} }, func(t *engine.T) *engine.Violation {
+					c.Case(func() any {
+						return map[string]any{"elements": el, "relationships": rl, "documentDescribes": desc, "hasFiles": hf}
+					}, func(t *engine.T) *engine.Violation {
 						root, ids, resolve := spdxDoc(el, rl, desc, hf)
 						full := c.Thorough() && len(rl) <= 1
 						ls := layoutsOf(root, []string{"packages", "[0]"}, full)
